@@ -44,18 +44,7 @@ Section Witness.
            (fun _ _ _ => LErr 3) (fun _ _ _ _ => OErr EDSRecords) (fun _ _ _ _ => WErr EDSRecords).
 End Witness.
 
-Lemma answer_ad_sound_refuted_lemma : ~ answer_ad_sound_statement.
-Proof.
-  intros H.
-  assert (Hacc : exists m, validate_answer E9 q 1 false forged pds (Some p) = Accept m /\ m_ad m = true).
-  { eexists. split; vm_compute; reflexivity. }
-  destruct Hacc as (m & Hv & Had).
-  specialize (H E9 q 1 forged pds (Some p) m eq_refl eq_refl Hv Had g [ds_g]).
-  destruct H as [H|[H|(dm & Hd & Hadm & _)]].
-  - vm_compute. left. reflexivity.
-  - vm_compute. reflexivity.
-  - vm_compute. reflexivity.
-  - discriminate.
-  - vm_compute in H. discriminate.
-  - vm_compute in Hd. injection Hd as <-. discriminate.
-Qed.
+(* the witness that refuted answer_ad_sound before the repair: the unsigned DS is no longer a trust link, and
+   without a proof that the cut above it is insecure the forged answer is refused *)
+Lemma f9_witness_refused : validate_answer E9 q 1 false forged pds (Some p) = Fail EDSRecords.
+Proof. vm_compute. reflexivity. Qed.
